@@ -21,6 +21,7 @@
 #include <sys/mman.h>
 #include <sys/stat.h>
 #include <sys/wait.h>
+#include <sys/resource.h>
 #include <inttypes.h>
 
 using namespace sim;
@@ -369,6 +370,8 @@ static Plan make_plan(const std::string& prop, uint64_t root, uint64_t idx, bool
     if (g.below(4) == 0) p.args.push_back({"-d", g.below(4) ? "gnu-ld" : (g.below(2) ? "sectcreate1" : "sectcreate2")});
     else if (g.below(6) == 0) p.args.push_back({"-d", "arrays"});
     if (!ce.ref.empty() && g.below(3) == 0) { p.ref = g.below(5) == 0 ? ce.wasm : ce.ref; p.changed = ce.changed; }
+    // the pinned "abyss" module (150000 nesting levels) runs with default options: pretty printing would emit output quadratic in the depth
+    if (ce.wasm.size() >= 9 && ce.wasm.compare(ce.wasm.size() - 9, 9, "m905.wasm") == 0) p.args.clear();
     if (prop == "C20" ? g.below(2) == 0 : g.below(5) == 0) p.args.push_back({"-c"});
     p.shape = (int)g.below(prop == "C20" ? 14 : 11);
     if (prop != "C20" && p.shape == 5) p.shape = 7;   // an output named like an implementation file collides with it: only meaningful for C20
@@ -396,8 +399,9 @@ static Plan make_plan(const std::string& prop, uint64_t root, uint64_t idx, bool
     p.pct_depth = 1 + (int)r.below(3);
     static const uint32_t mm[] = {0, 50, 300, 2000, 20000};
     p.mem_mean = mm[r.below(5)];
+    if (g_sweep) p.mem_mean = r.below(2) ? 0 : 20000;       // the sweep is about breadth over modules (some of them huge), not about schedules
     p.spurious = r.below(2) ? 0 : (r.below(2) ? 0.02 : 0.2);
-    { static const uint32_t le[] = {0, 1, 1, 2, 5}; p.libc_every = le[(p.seed >> 40) % 5]; }
+    { static const uint32_t le[] = {0, 1, 1, 2, 5}; p.libc_every = le[(p.seed >> 40) % 5]; if (g_sweep) p.libc_every = 0; }
     if (prop == "C10" && !g_sweep) {
         long sz = ce.size;
         if (c10_enum) { long k = (long)(idx % 4096); p.trunc = (k == 0) ? -1 : (k < sz ? k : -2); }
@@ -505,7 +509,8 @@ static void run_translator(const Plan& p, bool canonical, RunOut& o) {
         if (!canonical) ctx.faults = p.faults;
         C = &ctx; g_kinds = &o.kinds; g_ncpu = p.ncpu;
         std::vector<char*> argv; for (auto& s : av) argv.push_back((char*)s.c_str()); argv.push_back(nullptr);
-        Config cfg; cfg.seed = p.seed; cfg.max_steps = 1500000; cfg.tick_ns = 1000;
+        Config cfg; cfg.seed = p.seed; cfg.max_steps = 4000000; cfg.tick_ns = 1000;
+        cfg.task_stack_bytes = 64ull << 20;      // worker threads of the real translator have the process default (8 MB) with frames several times smaller than the instrumented ones
         if (canonical) { cfg.policy = 0; cfg.switch_prob = 0; cfg.mem_mean = 0; cfg.spurious_prob = 0; cfg.timer_prob = 0; sim::set_replay_trace(std::vector<uint32_t>()); }
         else {
             cfg.policy = p.policy; cfg.switch_prob = p.switch_prob; cfg.pct_depth = p.pct_depth; cfg.pct_horizon = 3000; cfg.mem_mean = p.mem_mean; cfg.spurious_prob = p.spurious; cfg.timer_prob = 0;
@@ -528,7 +533,14 @@ static void run_translator(const Plan& p, bool canonical, RunOut& o) {
     o.fopen_w = S->fopen_w; o.removes = S->removes; o.io_faults = S->io_faults;
     {
         FILE* f = __real_fopen(errfile.c_str(), "rb");
-        if (f) { fseek(f, 0, SEEK_END); o.stderr_size = ftell(f); long from = std::max(0l, o.stderr_size - 6000); fseek(f, from, SEEK_SET); char buf[6001]; size_t n = fread(buf, 1, 6000, f); buf[n] = 0; o.stderr_tail = buf; __real_fclose(f); }
+        if (f) {
+            fseek(f, 0, SEEK_END); o.stderr_size = ftell(f);
+            // head (where a sanitizer names the error) and tail (innermost diagnostics) of the child's stderr
+            char buf[6001]; size_t n;
+            if (o.stderr_size > 9000) { fseek(f, 0, SEEK_SET); n = fread(buf, 1, 3000, f); buf[n] = 0; o.stderr_tail = std::string(buf) + "\n[...]\n"; fseek(f, o.stderr_size - 6000, SEEK_SET); n = fread(buf, 1, 6000, f); buf[n] = 0; o.stderr_tail += buf; }
+            else { fseek(f, 0, SEEK_SET); std::string all; while ((n = fread(buf, 1, 6000, f)) > 0) { buf[n] = 0; all.append(buf, n); } o.stderr_tail = all; }
+            __real_fclose(f);
+        }
         // "x of y functions are dynamic"
         f = __real_fopen(errfile.c_str(), "rb");
         if (f) { char line[512]; while (fgets(line, sizeof line, f)) { unsigned long a, b; if (sscanf(line, "w2c2: %lu of %lu functions are dynamic", &a, &b) == 2) { o.dyn = (long)a; o.tot = (long)b; } } __real_fclose(f); }
@@ -563,8 +575,20 @@ static std::string opts_sig(const Plan& p) {
     return s.empty() ? "default" : s;
 }
 static std::string san_site(const std::string& err) {
-    // first frame in /repo code
     size_t pos = 0;
+    if (err.find("AddressSanitizer: stack-overflow") != std::string::npos) {
+        // a stack overflow is named by the function that recurses (most frequent translator frame), not by whatever ran last
+        std::map<std::string, int> cnt;
+        while ((pos = err.find(" in ", pos)) != std::string::npos) {
+            size_t e = err.find('\n', pos); std::string line = err.substr(pos + 4, e == std::string::npos ? std::string::npos : e - pos - 4);
+            pos += 4;
+            if (line.find("/w2c2/") != std::string::npos && line.find("/verif/") == std::string::npos) cnt[line.substr(0, line.find(' '))]++;
+        }
+        int bn = 0; for (auto& kv : cnt) bn = std::max(bn, kv.second);
+        std::string best = "?"; for (auto& kv : cnt) if (kv.second + 2 >= bn) { best = kv.first; break; }     // mutual recursion: the alphabetically first participant
+        return "recursion-in-" + best;
+    }
+    // first frame in /repo code
     while ((pos = err.find(" in ", pos)) != std::string::npos) {
         size_t e = err.find('\n', pos); std::string line = err.substr(pos + 4, e == std::string::npos ? std::string::npos : e - pos - 4);
         pos += 4;
@@ -728,8 +752,8 @@ static int do_run(uint64_t idx, Plan& p) {
     if (p.prop == "C10") {
         if (p.trunc == -2) { printf("R idx=%llu seed=%llu status=skip verdict=pass sig=- log=0 il=0 steps=0 switches=0 memev=0 simns=0 ops=0 tasks=0 faults=- probes=- replay=-\n", (unsigned long long)idx, (unsigned long long)p.seed); return 0; }
         run_translator(p, false, o);
-        crash_oracle(p, o, "C10", v, p.trunc >= 0);
-        if (o.exit_code == 92) status = "budget";
+        if (o.exit_code == 92) status = "budget";            // the simulator's own step budget ran out: counted, not judged
+        else crash_oracle(p, o, "C10", v, p.trunc >= 0);
         extra = std::string(",truncated:") + (p.trunc >= 0 ? "1" : "0") + ",exit_nonzero:" + (o.exit_code != 0 ? "1" : "0");
     } else if (p.prop == "C20") {
         run_translator(p, false, o);
@@ -750,6 +774,10 @@ extern "C" __attribute__((used)) const char* __asan_default_options() { return "
 extern "C" __attribute__((used)) const char* __ubsan_default_options() { return "halt_on_error=1:exitcode=77:print_stacktrace=1"; }
 
 int main(int argc, char** argv) {
+    // generous stacks: the instrumented translator's frames are several times larger than those of a plain build, and its
+    // code generator recurses once per nesting level of the input
+    { struct rlimit rl; if (getrlimit(RLIMIT_STACK, &rl) == 0) { rlim_t want = 120ull << 20; if (rl.rlim_cur != RLIM_INFINITY && rl.rlim_cur < want) { rl.rlim_cur = (rl.rlim_max == RLIM_INFINITY || rl.rlim_max > want) ? want : rl.rlim_max; setrlimit(RLIMIT_STACK, &rl); } }
+      pthread_attr_t a; if (pthread_attr_init(&a) == 0) { pthread_attr_setstacksize(&a, 96ull << 20); pthread_setattr_default_np(&a); pthread_attr_destroy(&a); } }
     std::string prop, replay; uint64_t root = 1, start = 0, count = 1, stride = 1; bool dump = false, c10_enum = false, canon_dump = false;
     for (int i = 1; i < argc; i++) {
         std::string a = argv[i]; auto nxt = [&]() { return std::string(i + 1 < argc ? argv[++i] : ""); };
